@@ -949,6 +949,9 @@ func runSeq(p Profile, seed uint64, cas int) *SeqRes {
 	if p.DeleteAll && p.DiskBlocks >= 8000 && !p.HighBlocks {
 		s.sparseTailScript()
 	}
+	if (p.DeleteAll || p.Recycle) && p.DiskBlocks >= 8000 && !p.HighBlocks && !p.NearFull {
+		s.sparseHoleScript()
+	}
 	if p.NearFull {
 		s.fillDisk()
 	}
@@ -1220,6 +1223,53 @@ func (s *Sess) sparseTailScript() {
 // removing transaction are removed (or truncated, or overwritten by a rename)
 // back to back, so that all their background frees are in flight together;
 // once the server is idle everything must have been given back.
+// sparseHoleScript: sparse files in the double-indirect range with a whole
+// second-level index range missing (a hole of >= 512 aligned blocks) between
+// data that ends exactly at the range border below it and the file's end
+// above it; removed, or truncated into the data below the hole, regrown and
+// read.  Everything must come back, and the regrown region must read as zero.
+func (s *Sess) sparseHoleScript() {
+	root := s.srv.Root
+	st := s.srv.N.VerifFsState()
+	s.srv.WaitIdle()
+	free0 := st.Balloc.NumFree()
+	const first = 8 + 512 // first file block of the double-indirect range
+	for i, c := range []uint64{1, 2, 3, 1} {
+		name := fmt.Sprintf("holes%d", i)
+		r := s.exec(&Op{K: OpCreate, H: root, Name: name})
+		if r.Stat != stOK {
+			return
+		}
+		border := first + 512*c // first block of second-level range c (left empty)
+		n := uint32(8 * BlockSize)
+		if i == 3 {
+			n = uint32(16 * BlockSize)
+		}
+		s.nextUid++
+		s.exec(&Op{K: OpWrite, H: r.FH, Off: border*BlockSize - uint64(n), Count: n, DataLen: n, Uid: s.nextUid, Stable: 0})
+		switch i % 2 {
+		case 0: // one block of data above the hole
+			s.nextUid++
+			s.exec(&Op{K: OpWrite, H: r.FH, Off: (border + 512 + 5) * BlockSize, Count: 100, DataLen: 100, Uid: s.nextUid, Stable: 0})
+		case 1: // only the size reaches above the hole
+			s.exec(&Op{K: OpSetattr, H: r.FH, SetSize: true, Size: (border+1024)*BlockSize + 17})
+		}
+		if i >= 2 {
+			// truncate into the data below the hole, grow again, read it
+			s.exec(&Op{K: OpSetattr, H: r.FH, SetSize: true, Size: (border-4)*BlockSize + 100})
+			s.srv.WaitIdle()
+			s.exec(&Op{K: OpSetattr, H: r.FH, SetSize: true, Size: (border + 3) * BlockSize})
+			s.exec(&Op{K: OpRead, H: r.FH, Off: (border - 8) * BlockSize, Count: 11 * BlockSize})
+		}
+		s.exec(&Op{K: OpRemove, H: root, Name: name})
+		s.srv.WaitIdle()
+	}
+	if f := st.Balloc.NumFree(); f != free0 {
+		s.viol("leak", "four sparse files with a missing second-level index range between their data and their end were truncated/removed: %d blocks free before, %d after all background freeing has finished", free0, f)
+	}
+	s.res.Stats.Add("sparse-files-with-a-missing-second-level-range")
+}
+
 func (s *Sess) manyBigFrees() {
 	root := s.srv.Root
 	st := s.srv.N.VerifFsState()
